@@ -286,6 +286,15 @@ func cmdCheck(args []string) int {
 	}
 	t0 := time.Now()
 	smtDir = filepath.Join(verifDir, "out", "smt", *property+"-"+*tier)
+	if repoDir != "/repo" || *only != "" {
+		// a run against another tree (selftest) or of a single function (debugging) must not wipe the query files of a
+		// concurrent run of the registered check
+		smtDir = filepath.Join(verifDir, "out", "smt", fmt.Sprintf("%s-%s-%d", *property, *tier, os.Getpid()))
+		defer os.RemoveAll(smtDir)
+	}
+	if d := os.Getenv("STUNVC_SMTDIR"); d != "" {
+		smtDir = d
+	}
 	os.RemoveAll(smtDir)
 	os.MkdirAll(smtDir, 0o755)
 	tsets := tagSets[*property]
